@@ -128,6 +128,11 @@ Start(ns, i, delay, clk) ==
     IF ns.cas[i].started THEN ns
     ELSE [ns EXCEPT !.cas[i].started = TRUE, !.tms = Append(@, [ca |-> i, dl |-> clk + delay]), !.tok = @ + 1]
 
+\* ca.stop(): the claim timer is removed (remove_timer wakes the job thread); the CA keeps its state and address
+Stop(ns, i) ==
+    IF ~ns.cas[i].started THEN ns
+    ELSE [ns EXCEPT !.cas[i].started = FALSE, !.tms = SelectSeq(@, LAMBDA x : x.ca # i), !.tok = @ + 1]
+
 \* one job pass: serve the claim timers (snapshot semantics); granule = one timer entry, so that a frame emitted
 \* by a callback can be delivered (latency 0) before the next one fires.
 \* pc: [ph "idle"] / [ph "t", snap (sequence of entries), nw, now] / [ph "end", nw, now]
